@@ -1270,6 +1270,11 @@ def reshape(ex, a, new, pc):
         rows, cols = new
         ex.obligations.append(("reshape preserves the number of elements", list(pc), zint(a.shape[0]) == zint(rows) * zint(cols)))
         return SArr((rows, cols), lambda i, j: a.elem(zint(i) * zint(cols) + zint(j)), a.dtype)
+    if len(a.shape) == 2 and len(old_nz) == 2 and len(new_nz) == 1:
+        rows, cols = a.shape
+        ex.obligations.append(("reshape preserves the number of elements", list(pc), zint(new_nz[0]) == zint(rows) * zint(cols)))
+        pos = [k for k, s_ in enumerate(new) if not (concrete(s_) and s_ == 1)][0]
+        return SArr(tuple(new), lambda *j: a.elem(zint(j[pos]) / zint(cols), zint(j[pos]) % zint(cols)), a.dtype)
     if len(old_nz) != len(new_nz):
         raise Unsupported(f"general reshape {a.shape} -> {new}")
     for x, y in zip(old_nz, new_nz):
@@ -1438,6 +1443,55 @@ def lib_arange(ex, args, kwargs, pc):
     raise Unsupported("arange(start, stop, step) (float grid: bounded stand-in)")
 
 
+def lib_linspace(ex, args, kwargs, pc):
+    """real-arithmetic model: linspace(a, b, n, endpoint=False)[k] = a + k (b - a) / n"""
+    a, b_, n_ = args[0], args[1], args[2]
+    if kwargs.get("endpoint", True) is not False:
+        raise Unsupported("linspace with endpoint")
+    ex.obligations.append(("linspace count is positive", list(pc), zint(n_) >= 1))
+    return SArr((n_,), lambda k: zreal(a) + z3.ToReal(zint(k)) * (zreal(b_) - zreal(a)) / z3.ToReal(zint(n_)), "real")
+
+
+def lib_hstack(ex, args, kwargs, pc):
+    arrs = list(args[0])
+    if all(len(a.shape) == 2 for a in arrs):
+        return lib_concatenate(ex, [arrs], {"axis": 1}, pc)
+    return lib_concatenate(ex, [arrs], {"axis": 0}, pc)
+
+
+def lib_stack(ex, args, kwargs, pc):
+    arrs = list(args[0])
+    axis = kwargs.get("axis", args[1] if len(args) > 1 else 0)
+    rank = len(arrs[0].shape)
+    if axis not in (-1, rank):
+        raise Unsupported("stack along a non-trailing axis")
+
+    def elem(*j):
+        last = j[-1]
+        res = arrs[-1].elem(*j[:-1])
+        for t in range(len(arrs) - 2, -1, -1):
+            res = arrs[t].elem(*j[:-1]) if (concrete(last) and last == t) else (res if concrete(last) else ite(zint(last) == t, arrs[t].elem(*j[:-1]), res))
+        return res
+    return SArr(tuple(arrs[0].shape) + (len(arrs),), elem, arrs[0].dtype)
+
+
+def lib_meshgrid(ex, args, kwargs, pc):
+    if len(args) != 2 or kwargs.get("indexing", "xy") != "xy":
+        raise Unsupported("meshgrid other than two arrays with xy indexing")
+    x, y = args
+    shape = (y.shape[0], x.shape[0])
+    return [SArr(shape, lambda i, j: x.elem(j), "real"), SArr(shape, lambda i, j: y.elem(i), "real")]
+
+
+def lib_sqrt(ex, args, kwargs, pc):
+    """integer square root through the contract's ghost: ex.sqrt_of maps a perfect square to its root"""
+    v = args[0]
+    for sq, root in getattr(ex, "sqrt_of", []):
+        if v is sq or (is_z3(v) and is_z3(sq) and v.eq(sq)):
+            return root
+    raise Unsupported("sqrt of a value without a declared root")
+
+
 def lib_count_nonzero(ex, args, kwargs, pc):
     a = args[0]
     cnt = fresh_int("count")
@@ -1456,7 +1510,18 @@ def lib_all(ex, args, kwargs, pc):
 
 
 def lib_array(ex, args, kwargs, pc):
-    return args[0]
+    v = args[0]
+    if isinstance(v, (list, tuple)) and v and all(not isinstance(x, (SArr, list, tuple, dict, Rec, bool)) and (is_z3(x) or isinstance(x, (int, float))) for x in v) \
+            and any(is_z3(x) and x.sort() == z3.RealSort() or isinstance(x, float) for x in v):
+        vals = list(v)
+
+        def elem(k):
+            res = zreal(vals[-1])
+            for t in range(len(vals) - 2, -1, -1):
+                res = zreal(vals[t]) if (concrete(k) and k == t) else (res if concrete(k) else ite(zint(k) == t, zreal(vals[t]), res))
+            return res
+        return SArr((len(vals),), elem, "real")
+    return v
 
 
 def lib_identity_decorator(ex, args, kwargs, pc):
@@ -1481,6 +1546,11 @@ LIB = {
     "jnp.take": lib_take,
     "jnp.arange": lib_arange,
     "jnp.count_nonzero": lib_count_nonzero,
+    "jnp.linspace": lib_linspace,
+    "jnp.hstack": lib_hstack,
+    "jnp.stack": lib_stack,
+    "jnp.meshgrid": lib_meshgrid,
+    "jnp.sqrt": lib_sqrt,
     "jnp.all": lib_all,
     "jnp.array": lib_array,
     "jnp.asarray": lib_array,
@@ -1526,6 +1596,7 @@ PY_BUILTINS = {
     "list": lambda ex, a, k, pc: list(a[0]) if a else [], "dict": lambda ex, a, k, pc: dict(a[0]) if a else dict(k),
     "set": _py_set, "zip": lambda ex, a, k, pc: list(zip(*a)), "enumerate": lambda ex, a, k, pc: list(enumerate(a[0])),
     "int": lambda ex, a, k, pc: a[0] if is_z3(a[0]) else int(a[0]), "float": lambda ex, a, k, pc: a[0],
+    "round": lambda ex, a, k, pc: a[0] if is_z3(a[0]) else round(a[0]),
     "max": lambda ex, a, k, pc: max(*a) if all(concrete(x) for x in a) else z3.If(zint(a[0]) >= zint(a[1]), zint(a[0]), zint(a[1])),
     "min": lambda ex, a, k, pc: min(*a) if all(concrete(x) for x in a) else z3.If(zint(a[0]) <= zint(a[1]), zint(a[0]), zint(a[1])),
     "isinstance": None, "super": None, "str": lambda ex, a, k, pc: "<str>", "ValueError": None, "any": lambda ex, a, k, pc: any(a[0]),
